@@ -444,3 +444,1003 @@ def simplifiers(prop: str):
         return out
 
     return [smaller]
+
+
+# ==================================================================================================
+# C05  tournament selection
+# ==================================================================================================
+class _NpRandomRecorder:
+    """Pass-through proxy for the name `np` inside agilerl.hpo.tournament: records the tournaments drawn."""
+
+    def __init__(self, real_np):
+        self._np = real_np
+        self.draws: List[List[int]] = []
+        outer = self
+
+        class _R:
+            def randint(self, *a, **k):
+                res = real_np.random.randint(*a, **k)
+                outer.draws.append([int(x) for x in real_np.asarray(res).reshape(-1)])
+                return res
+
+            def __getattr__(self, name):
+                return getattr(real_np.random, name)
+
+        self.random = _R()
+
+    def __getattr__(self, name):
+        return getattr(self._np, name)
+
+
+def gen_c05(rng: random.Random, tier: str) -> Dict[str, Any]:
+    cfg = A.gen_agent_cfg(rng, algos=["DQN", "DQN", "CQN", "RainbowDQN", "DDPG", "TD3", "PPO", "NeuralUCB", "NeuralTS", "MADDPG", "MATD3", "IPPO"])
+    if cfg["hp"] == "shared":
+        cfg["hp"] = "private"
+    n = rng.randint(1, 6)
+    ops = []
+    for _ in range(rng.randint(1, 4 if tier == "quick" else 10)):
+        ops.append({"op": "generation", "fit": rng.choice(["random", "random", "all_tied", "two_tied_best", "negative", "unequal_len", "short_hist"]),
+                    "tsize": rng.randint(1, n + 2), "elitism": rng.random() < 0.6, "eval_loop": rng.choice([1, 1, 2, 3]),
+                    "size_delta": rng.choice([0, 0, 0, 1, -1]), "train": rng.random() < 0.3, "seed": rng.getrandbits(31)})
+    return {"engine": "world", "prop": "C05", "cfg": cfg, "cfg_seed": rng.getrandbits(31), "pop": n, "ops": ops}
+
+
+def run_c05(ctx: kernel.Ctx, case: Dict[str, Any]) -> None:
+    import agilerl.hpo.tournament as T
+
+    w = World(ctx, case)
+    w.build_population(case["pop"], shared_hp=False, seed=case["cfg_seed"])
+    real_np = T.np
+    try:
+        for oi, op in enumerate(case["ops"]):
+            ctx.op_index = oi
+            ctx.steps += 1
+            r = np.random.RandomState(op["seed"] % (2**32 - 1))
+            pop = w.pop
+            n = len(pop)
+            # --- fitness histories assigned by the scheduler ---
+            for j, a in enumerate(pop):
+                mode = op["fit"]
+                if mode == "all_tied":
+                    new = [1.0] * op["eval_loop"]
+                elif mode == "two_tied_best":
+                    new = [5.0 if j < 2 else float(r.uniform(-1, 1))] * op["eval_loop"]
+                elif mode == "negative":
+                    new = [float(-r.uniform(1, 100)) for _ in range(op["eval_loop"])]
+                elif mode == "unequal_len":
+                    new = [float(r.uniform(-1, 1)) for _ in range(1 + (j % 3))]
+                elif mode == "short_hist":
+                    new = [float(r.uniform(-1, 1))]
+                else:
+                    new = [float(r.uniform(-10, 10)) for _ in range(op["eval_loop"])]
+                a.fitness.extend(new)
+            if op.get("train"):
+                for a in pop:
+                    w.op_learn(a, kernel.derive(op["seed"], "t", a.index), "mixed", 1)
+            w.snapshot_all()
+            means = [float(np.mean(a.fitness[-op["eval_loop"]:])) for a in pop]
+            best = max(means)
+            size = max(1, n + op.get("size_delta", 0))
+            ts = T.TournamentSelection(op["tsize"], op["elitism"], size, op["eval_loop"])
+            rec = _NpRandomRecorder(real_np)
+            T.np = rec
+            seed_all(op["seed"])
+            try:
+                elite, new_pop = ts.select(pop)
+            finally:
+                T.np = real_np
+            ctx.log("world", "select", {"means": means, "draws": rec.draws, "idx": [a.index for a in new_pop]})
+            if len(set(round(m, 12) for m in means)) < len(means):
+                ctx.probe("tied_fitness")
+            # --- old population untouched ---
+            w.check_non_interference([], f"op {oi}: TournamentSelection.select", cls_prefix="C05")
+            # --- size ---
+            if len(new_pop) != size:
+                ctx.report("C05/size", f"new population has {len(new_pop)} members, configured population_size={size}", **w.loc)
+
+            def parents_of(child) -> List[int]:
+                out = []
+                for j, p in enumerate(pop):
+                    vd, bd = faithful_copy_diffs(w, p, child)
+                    if not vd and not bd:
+                        out.append(j)
+                return out
+
+            # --- elite ---
+            ep = parents_of(elite)
+            if not ep:
+                ctx.report("C05/elite_not_a_copy", "the returned elite is not a faithful copy of any member of the old population", **w.loc)
+            elif not any(means[j] == best for j in ep):
+                ctx.report("C05/elite_not_best", f"elite is a copy of member(s) {ep} with mean fitness {[means[j] for j in ep]}, best mean is {best} (means {means})", **w.loc)
+            members = list(new_pop)
+            if op["elitism"] and members:
+                first = members[0]
+                fp = parents_of(first)
+                if not fp or not any(means[j] == best for j in fp):
+                    ctx.report("C05/first_not_elite", f"with elitism the first member must be the elite; it copies {fp} (means {means})", **w.loc)
+                if fp and first.index not in [pop[j].index for j in fp if means[j] == best]:
+                    ctx.report("C05/elite_index", f"elite member carries index {first.index}, the best agents have {[pop[j].index for j in fp]}", **w.loc)
+                members = members[1:]
+            # --- tournament children ---
+            if len(rec.draws) != len(members):
+                ctx.report("C05/draws", f"{len(rec.draws)} tournaments drawn for {len(members)} children", **w.loc)
+            for k, child in enumerate(members):
+                cp = parents_of(child)
+                if not cp:
+                    ctx.report("C05/child_not_a_copy", f"child {k} (index {child.index}) is not a faithful copy of any old member", **w.loc)
+                    continue
+                if k < len(rec.draws):
+                    drawn = rec.draws[k]
+                    if len(drawn) != op["tsize"]:
+                        ctx.report("C05/tournament_size", f"tournament {k} drew {len(drawn)} agents, tournament_size={op['tsize']}", **w.loc)
+                    top = max(means[j] for j in drawn)
+                    ok = [j for j in drawn if means[j] == top]
+                    if not set(cp) & set(ok):
+                        ctx.report("C05/child_not_tournament_winner",
+                                   f"child {k} copies member(s) {cp}; tournament drew {drawn} with means {[means[j] for j in drawn]}, winners {sorted(set(ok))}", **w.loc)
+            idx = [a.index for a in new_pop]
+            if len(set(idx)) != len(idx):
+                ctx.report("C05/duplicate_index", f"indices of the new generation are not distinct: {idx}", **w.loc)
+            old_idx = {a.index for a in pop}
+            stale = [a.index for a in members if a.index in old_idx]
+            if stale:
+                ctx.report("C05/index_not_fresh", f"non-elite members carry indices {stale} that already exist in the old population {sorted(old_idx)}", **w.loc)
+            w.ghosts = (w.ghosts + pop + [elite])[-8:]
+            w.pop = list(new_pop)
+            w.snapshot_all()
+            ctx.state((w.cfg["algo"], n, op["tsize"], op["elitism"], op["fit"], op["eval_loop"]))
+        ctx.nontrivial = case["pop"] >= 2 and len(case["ops"]) >= 1
+    finally:
+        T.np = real_np
+
+
+# ==================================================================================================
+# C06  RL hyper-parameter mutation
+# ==================================================================================================
+def _hp_values(agent) -> Dict[str, Any]:
+    hc = agent.registry.hp_config
+    return {n_: getattr(agent, n_) for n_ in (hc.names() if hc else [])}
+
+
+def _optimizer_lrs(agent) -> Dict[str, List[float]]:
+    out = {}
+    for name, wpr in A.optimizers(agent):
+        out[name] = [g["lr"] for o in A.torch_optims(wpr) for g in o.param_groups]
+    return out
+
+
+def check_optimizers_live(w: World, agent, cls_prefix: str, when: str) -> None:
+    """every optimizer updates exactly the current parameters of the networks it is registered for and uses the
+    agent's current learning rate"""
+    for cfg_o in agent.registry.optimizers:
+        wpr = getattr(agent, cfg_o.name)
+        nets = []
+        for nname in wpr.network_names:
+            obj = getattr(agent, nname)
+            nets.extend(obj if isinstance(obj, list) else [obj])
+        want = {id(p) for m in nets for p in m.parameters()}
+        have = {id(p) for o in A.torch_optims(wpr) for g in o.param_groups for p in g["params"]}
+        if want != have:
+            ctx_msg = f"{when}: optimizer '{cfg_o.name}' holds {len(have)} parameters of which {len(have - want)} are not live parameters of {wpr.network_names}; {len(want - have)} live parameters are not optimised"
+            w.ctx.report(f"{cls_prefix}/optimizer_stale_params", ctx_msg, optimizer=cfg_o.name, **w.loc)
+        lr_now = getattr(agent, wpr.lr_name)
+        lrs = [g["lr"] for o in A.torch_optims(wpr) for g in o.param_groups]
+        if any(abs(float(x) - float(lr_now)) > 1e-12 * max(1.0, abs(float(lr_now))) for x in lrs):
+            w.ctx.report(f"{cls_prefix}/optimizer_stale_lr", f"{when}: optimizer '{cfg_o.name}' steps with lr {sorted(set(lrs))} but agent.{wpr.lr_name} = {lr_now}",
+                         optimizer=cfg_o.name, **w.loc)
+
+
+def gen_c06(rng: random.Random, tier: str) -> Dict[str, Any]:
+    cfg = A.gen_agent_cfg(rng)
+    cfg["hp"] = rng.choice(["shared", "shared", "private"])
+    cfg["hp_spec"] = rng.choice(["default", "wide", "int_stuck", "at_bounds"])
+    cfg["learn_step"] = 2  # inside every configured learn_step range
+    ops = []
+    for _ in range(rng.randint(1, 8 if tier == "quick" else 40)):
+        x = rng.random()
+        s = rng.getrandbits(31)
+        if x < 0.7:
+            ops.append({"op": "hp_mutate", "seed": s})
+        elif x < 0.8:
+            ops.append({"op": "clone", "i": rng.randrange(8), "seed": s})
+        elif x < 0.9:
+            ops.append({"op": "select", "seed": s})
+        else:
+            ops.append({"op": "learn", "i": rng.randrange(8), "seed": s})
+    return {"engine": "world", "prop": "C06", "cfg": cfg, "cfg_seed": rng.getrandbits(31), "pop": rng.randint(1, 4),
+            "distinct_start": rng.random() < 0.5, "ops": ops}
+
+
+def _c06_hp(cfg):
+    from agilerl.algorithms.core.registry import HyperparameterConfig, RLParameter
+
+    spec = cfg.get("hp_spec", "default")
+    lr_names = ["lr_actor", "lr_critic"] if cfg["algo"] in ("DDPG", "TD3", "MADDPG", "MATD3") else ["lr"]
+    kw = {}
+    if spec == "default":
+        for n_ in lr_names:
+            kw[n_] = RLParameter(min=1e-4, max=1e-2)
+        kw["batch_size"] = RLParameter(min=2, max=16, dtype=int)
+        kw["learn_step"] = RLParameter(min=1, max=8, dtype=int, grow_factor=1.5, shrink_factor=0.75)
+    elif spec == "wide":
+        for n_ in lr_names:
+            kw[n_] = RLParameter(min=1e-6, max=1.0, shrink_factor=0.5, grow_factor=3.0)
+        kw["batch_size"] = RLParameter(min=1, max=64, dtype=int, shrink_factor=0.3, grow_factor=2.5)
+    elif spec == "int_stuck":
+        kw["batch_size"] = RLParameter(min=2, max=9, dtype=int, shrink_factor=0.9, grow_factor=1.1)  # int(v*1.1) == v for small v
+        kw["learn_step"] = RLParameter(min=1, max=3, dtype=int)  # cfg["learn_step"] is set to 2 for this spec
+        kw[lr_names[0]] = RLParameter(min=cfg["lr"] * 0.9, max=cfg["lr"] * 1.5)
+    else:  # at_bounds: current value equals min or max
+        for n_ in lr_names:
+            kw[n_] = RLParameter(min=cfg["lr"] * (2 if n_ == "lr_critic" else 1), max=cfg["lr"] * (2 if n_ == "lr_critic" else 1) * 1.1)
+        kw["batch_size"] = RLParameter(min=1, max=cfg["batch_size"], dtype=int)
+    return HyperparameterConfig(**kw)
+
+
+def run_c06(ctx: kernel.Ctx, case: Dict[str, Any]) -> None:
+    from agilerl.hpo.tournament import TournamentSelection
+
+    w = World(ctx, case)
+    cfg = w.cfg
+    shared = _c06_hp(cfg) if cfg["hp"] == "shared" else None
+    for i in range(case["pop"]):
+        hp = shared if shared is not None else _c06_hp(cfg)
+        ag = A.make_agent(cfg, index=i, hp=hp, seed=kernel.derive(case["cfg_seed"], "agent", i))
+        w.pop.append(ag)
+        w.name(ag)
+    if shared is not None and case["pop"] > 1:
+        ctx.probe("initial_population_shares_config")
+    if case.get("distinct_start"):
+        # members are given different current values (inside the range) before the first mutation
+        for i, ag in enumerate(w.pop):
+            for n_, p in ag.registry.hp_config.items():
+                if p.dtype is int:
+                    v = int(min(p.max, max(p.min, getattr(ag, n_) + i)))
+                    setattr(ag, n_, v)
+    w.snapshot_all()
+    n_mut = 0
+    for oi, op in enumerate(case["ops"]):
+        ctx.op_index = oi
+        ctx.steps += 1
+        if op["op"] == "hp_mutate":
+            before = [(_hp_values(a), {n_: (p.min, p.max, p.shrink_factor, p.grow_factor, p.dtype) for n_, p in a.registry.hp_config.items()}) for a in w.pop]
+            m = make_mutations({"rl_hp": 1.0}, op["seed"])
+            seed_all(op["seed"])
+            new_pop = m.mutation(w.pop)
+            n_mut += 1
+            if len(new_pop) != len(w.pop):
+                ctx.report("C06/population_size", f"mutation returned {len(new_pop)} agents for {len(w.pop)}", **w.loc)
+            for j, ag in enumerate(new_pop):
+                old_vals, ranges = before[j]
+                new_vals = _hp_values(ag)
+                changed = [n_ for n_ in old_vals if new_vals[n_] != old_vals[n_] or type(new_vals[n_]) is not type(old_vals[n_]) and False]
+                mut = ag.mut
+                ctx.log(w.name(ag), "hp_mutate", {"mut": str(mut), "old": old_vals, "new": new_vals})
+                if mut not in old_vals:
+                    ctx.report("C06/mut_label", f"agent {j} reports mut={mut!r}, configured hyperparameters are {sorted(old_vals)}", **w.loc)
+                    continue
+                others = [n_ for n_ in changed if n_ != mut]
+                if others:
+                    ctx.report("C06/more_than_one_changed", f"agent {j}: besides {mut}, {others} changed: {old_vals} -> {new_vals}", **w.loc)
+                mn, mx, sh, gr, dt = ranges[mut]
+                old, new = old_vals[mut], new_vals[mut]
+                cands = {dt(min(max(old * f, mn), mx)) for f in (sh, gr)}
+                if old in (mn, mx):
+                    ctx.probe("value_at_bound")
+                if dt is int and any(c == old for c in cands):
+                    ctx.probe("int_mutation_sticks")
+                if not any(abs(new - c) <= 1e-12 * max(1.0, abs(c)) for c in cands):
+                    ctx.report("C06/value_not_own_times_factor",
+                               f"agent {j} ({w.name(ag)}): {mut} went {old!r} -> {new!r}; own value x shrink/grow clipped to [{mn}, {mx}] gives {sorted(cands)}",
+                               param_kind="int" if dt is int else "float", **w.loc)
+                if not (mn <= new <= mx):
+                    ctx.report("C06/out_of_range", f"agent {j}: {mut}={new!r} outside [{mn}, {mx}]", **w.loc)
+                if type(new) is not dt:
+                    ctx.report("C06/dtype", f"agent {j}: {mut} has type {type(new).__name__}, configured {dt.__name__}", **w.loc)
+                check_optimizers_live(w, ag, "C06", f"op {oi} agent {j} after {mut} mutation")
+            w.pop = list(new_pop)
+            # ghosts and clones of earlier generations must not move (the mutated agents themselves are the targets)
+            w.check_non_interference(w.pop, f"op {oi}: RL-hyperparameter mutation of the population", cls_prefix="C06")
+        elif op["op"] == "clone":
+            p = w.pick(op["i"])
+            c = p.clone(index=max(a.index for a in w.everyone()) + 1)
+            w.pop.append(c)
+            w.snapshot_all()
+        elif op["op"] == "select":
+            r = np.random.RandomState(op["seed"] % (2**32 - 1))
+            for a in w.pop:
+                a.fitness.append(float(r.uniform(-1, 1)))
+            seed_all(op["seed"])
+            elite, new_pop = TournamentSelection(2, True, len(w.pop), 1).select(w.pop)
+            w.ghosts = (w.ghosts + w.pop)[-6:]
+            w.pop = list(new_pop)
+            w.snapshot_all()
+            ctx.probe("select_between_mutations")
+        elif op["op"] == "learn":
+            ag = w.pick(op["i"])
+            w.op_learn(ag, op["seed"], "mixed", 1)
+            w.check_non_interference([ag], f"op {oi}: learn", cls_prefix="C06")
+        ctx.state((cfg["algo"], cfg["hp"], cfg["hp_spec"], op["op"], len(w.pop)))
+    ctx.nontrivial = n_mut > 0
+
+
+# ==================================================================================================
+# C02  coherence after mutation
+# ==================================================================================================
+def _arch_map(agent) -> Dict[str, Any]:
+    return {name: A._arch(m) for name, m in A.flat_nets(agent)}
+
+
+def _flatten(d, prefix=""):
+    out = {}
+    if isinstance(d, dict):
+        for k, v in d.items():
+            out.update(_flatten(v, f"{prefix}{k}."))
+    else:
+        out[prefix[:-1]] = d
+    return out
+
+
+def _arch_delta(before, after) -> Dict[str, Any]:
+    fb, fa = _flatten(before), _flatten(after)
+    out = {}
+    for k in set(fb) | set(fa):
+        if fb.get(k) != fa.get(k):
+            if any(s in k for s in ("sample_input", "observation_space", "action_space", "num_inputs", "num_outputs", "input_shape", "device", "name", "init_dicts")):
+                continue
+            out[k] = (fb.get(k), fa.get(k))
+    return out
+
+
+def _num_delta(pair):
+    b, a = pair
+    if isinstance(b, list) and isinstance(a, list):
+        if len(b) != len(a):
+            return ("len", len(a) - len(b))
+        try:
+            return ("el", tuple((y - x) if isinstance(x, (int, float)) and isinstance(y, (int, float)) else (x, y) for x, y in zip(b, a)))
+        except Exception:
+            return ("val", repr(a))
+    if isinstance(b, (int, float)) and isinstance(a, (int, float)):
+        return ("num", a - b)
+    return ("val", repr(a))
+
+
+def _bound_blocked(arch_before, path: str) -> bool:
+    """Is the value at `path` of this network sitting on one of the min_* / max_* bounds declared next to it?"""
+    flat = _flatten(arch_before)
+    prefix = path.rsplit(".", 1)[0] + "." if "." in path else ""
+    val = flat.get(path)
+    bounds = [v for k, v in flat.items() if k.startswith(prefix) and k[len(prefix):].startswith(("min_", "max_")) and isinstance(v, (int, float))]
+    vals = val if isinstance(val, list) else [val]
+    if any(v in bounds for v in vals if isinstance(v, (int, float))):
+        return True
+    if isinstance(val, list) and len(val) in bounds:
+        return True
+    return False
+
+
+def gen_c02(rng: random.Random, tier: str) -> Dict[str, Any]:
+    cfg = A.gen_agent_cfg(rng)
+    if cfg["hp"] == "none":
+        cfg["hp"] = "private"
+    ops = []
+    mode = rng.choice(["single_kind", "mixed", "mixed", "no_elite"])
+    first = True
+    for _ in range(rng.randint(1, 5 if tier == "quick" else 12)):
+        if mode == "single_kind":
+            probs = {rng.choice(MUT_KINDS): 1.0}
+        else:
+            probs = {k: rng.choice([0, 0.2, 0.5, 1.0]) for k in MUT_KINDS}
+            if sum(probs.values()) == 0:
+                probs["arch"] = 1.0
+        if not first and rng.random() < 0.6:
+            ops.append({"op": "select", "seed": rng.getrandbits(31)})
+        ops.append({"op": "mutate_pop", "probs": probs, "pre": first and rng.random() < 0.5, "mutate_elite": not (mode == "no_elite"),
+                    "new_layer_prob": rng.choice([0.0, 0.2, 0.5, 1.0]), "seed": rng.getrandbits(31)})
+        ops.append({"op": "use", "seed": rng.getrandbits(31)})
+        first = False
+    return {"engine": "world", "prop": "C02", "cfg": cfg, "cfg_seed": rng.getrandbits(31), "pop": rng.randint(1, 4), "ops": ops}
+
+
+def run_c02(ctx: kernel.Ctx, case: Dict[str, Any]) -> None:
+    from agilerl.hpo.tournament import TournamentSelection
+
+    w = World(ctx, case)
+    cfg = w.cfg
+    w.build_population(case["pop"], shared_hp=False, seed=case["cfg_seed"])
+    n_mut = 0
+    kinds_seen = set()
+    for oi, op in enumerate(case["ops"]):
+        ctx.op_index = oi
+        ctx.steps += 1
+        if op["op"] == "select":
+            r = np.random.RandomState(op["seed"] % (2**32 - 1))
+            for a in w.pop:
+                a.fitness.append(float(r.uniform(-1, 1)))
+            seed_all(op["seed"])
+            elite, new_pop = TournamentSelection(2, True, len(w.pop), 1).select(w.pop)
+            w.pop = list(new_pop)
+        elif op["op"] == "mutate_pop":
+            before_idx = [a.index for a in w.pop]
+            before_arch = [_arch_map(a) for a in w.pop]
+            before_fp = [A.value_fp(a) for a in w.pop]
+            before_hp = [_hp_values(a) for a in w.pop]
+            advertised = [set(a.get_policy().mutation_methods if not isinstance(a.get_policy(), list) else a.get_policy()[0].mutation_methods) for a in w.pop]
+            m, new_pop = w.op_mutate(w.pop, op["probs"], op["seed"], pre=op.get("pre", False), mutate_elite=op.get("mutate_elite", True),
+                                     new_layer_prob=op.get("new_layer_prob", 0.5))
+            n_mut += 1
+            if [a.index for a in new_pop] != before_idx:
+                ctx.report("C02/population_order", f"population indices {before_idx} -> {[a.index for a in new_pop]}", **w.loc)
+            w.pop = list(new_pop)
+            for j, ag in enumerate(w.pop):
+                mut = ag.mut
+                hp_names = set(before_hp[j])
+                allowed = {"None", None, "param", "act"} | advertised[j] | hp_names
+                kinds_seen.add("arch" if mut in advertised[j] else ("hp" if mut in hp_names else str(mut)))
+                ctx.log(w.name(ag), "mutated", {"mut": str(mut)})
+                if mut not in allowed:
+                    ctx.report("C02/mut_label_unknown", f"agent {j} reports mut={mut!r}; not 'None', 'param', 'act', an advertised method or a configured hyperparameter", **w.loc)
+                after_arch = _arch_map(ag)
+                deltas = {n_: _arch_delta(before_arch[j].get(n_), after_arch.get(n_)) for n_ in after_arch}
+                arch_changed = any(deltas.values())
+                after_fp = A.value_fp(ag)
+                # Mutations.mutation always re-creates the shared / target networks from their eval network and runs the
+                # mutation hooks (target re-sync, bandit matrix re-initialisation): that is not a mutation the agent "received"
+                tn = target_names(ag)
+                skip = tuple(f"net:{t}" for t in tn) + tuple(f"arch:{t}" for t in tn) + ("net:target_params", "bandit:", "book:mut")
+                # ... and what a reported mutation is about is weights, architecture and hyperparameters of the trained
+                # networks; optimizer moments being reset along the way is not demanded either way by the statement
+                moved = [k for k in diff_fp(before_fp[j], after_fp) if not k.startswith(skip) and k.startswith(("net:", "arch:", "hp:"))]
+                if mut is None:
+                    mut = "None"  # an architecture mutation that resolved to nothing reports None: same claim as 'None'
+                    ctx.probe("mut_label_is_NoneType")
+                act_changed = any("activation" in k for d in deltas.values() for k in d)
+                if mut == "None" and moved:
+                    ctx.report("C02/reports_none_but_changed", f"agent {j} reports mut='None' but {len(moved)} components changed (first {moved[:4]}); "
+                                                               f"architecture delta {[(n_, list(d)[:3]) for n_, d in deltas.items() if d][:2]}",
+                               what="activation" if act_changed else ("architecture" if arch_changed else "other"), **w.loc)
+                if mut in ("param", "act") and arch_changed and not (mut == "act" and act_changed and all("activation" in k for d in deltas.values() for k in d)):
+                    ctx.report("C02/label_vs_change", f"agent {j} reports mut={mut!r} but the architecture changed: {[(n_, d) for n_, d in deltas.items() if d][:2]}", **w.loc)
+                if mut in hp_names:
+                    hv = _hp_values(ag)
+                    wrong = [n_ for n_ in hp_names if hv[n_] != before_hp[j][n_] and n_ != mut]
+                    if wrong or arch_changed:
+                        ctx.report("C02/label_vs_change", f"agent {j} reports mut={mut!r} but {wrong} / architecture changed", **w.loc)
+                # (b) optimizers live + lr
+                check_optimizers_live(w, ag, "C02", f"op {oi} agent {j} after mutation {mut!r}")
+                # (c) shared / target networks mirror their eval network
+                outs = A.probe_outputs(ag, cfg, w.probes)
+                for g in ag.registry.groups:
+                    if g.shared is None:
+                        continue
+                    for sh in (g.shared if isinstance(g.shared, list) else [g.shared]):
+                        for k in [k for k in after_arch if k == sh or k.startswith(sh + "[")]:
+                            ke = k.replace(sh, g.eval, 1)
+                            if after_arch[k] != after_arch.get(ke):
+                                ctx.report("C02/target_architecture", f"agent {j} after {mut!r}: {k} has a different architecture than {ke}: "
+                                                                      f"{_arch_delta(after_arch.get(ke), after_arch[k])}", **w.loc)
+                            elif mut != "None" and (k not in outs or ke not in outs or not torch.equal(outs[k], outs[ke])):
+                                ctx.report("C02/target_weights", f"agent {j} right after mutation {mut!r}: {k} does not compute what {ke} computes", **w.loc)
+                # (d) every network trained alongside the policy received the same architecture change
+                pol_name = ag.registry.policy
+                pol_keys = [k for k in deltas if k == pol_name or k.startswith(pol_name + "[")]
+                for g in ag.registry.groups:
+                    if g.policy:
+                        continue
+                    for k in [k for k in deltas if k == g.eval or k.startswith(g.eval + "[")]:
+                        kp = pol_keys[min(len(pol_keys) - 1, int(k.split("[")[1][:-1]) if "[" in k else 0)] if pol_keys else None
+                        if kp is None:
+                            continue
+                        dp = {p: _num_delta(v) for p, v in deltas[kp].items()}
+                        dq = {p: _num_delta(v) for p, v in deltas[k].items()}
+                        if not dp:
+                            continue  # the policy itself was stopped by a bound: nothing to follow
+                        bad_paths = [p for p in dp if dq.get(p) != dp[p] and not _bound_blocked(before_arch[j][k], p)]
+                        extra = [p for p in dq if p not in dp]
+                        if bad_paths or extra:
+                            ctx.report("C02/critic_not_following", f"agent {j} after {mut!r}: policy {kp} changed {deltas[kp]}, but {k} changed {deltas[k]} "
+                                                                   f"(paths not followed and not at a bound: {bad_paths}; extra: {extra})", **w.loc)
+            ctx.probe("mutation_round")
+        elif op["op"] == "use":
+            # (e) liveness: the agent can still act and a learn step really moves all trained networks
+            for j, ag in enumerate(w.pop):
+                w.op_act(ag, kernel.derive(op["seed"], "act", j))
+                before = {name: {k: v.clone() for k, v in m.named_parameters()} for name, m in A.flat_nets(ag)}
+                k = int(getattr(ag, "policy_freq", 1) or 1)
+                w.op_learn(ag, kernel.derive(op["seed"], "learn", j), "mixed", k)
+                trained = set()
+                for oc in ag.registry.optimizers:
+                    wpr = getattr(ag, oc.name)
+                    for nname in wpr.network_names:
+                        obj = getattr(ag, nname)
+                        if isinstance(obj, list):
+                            trained.update(f"{nname}[{i}]" for i in range(len(obj)))
+                        else:
+                            trained.add(nname)
+                for name, m in A.flat_nets(ag):
+                    if name not in trained or name not in before:
+                        continue
+                    cur = dict(m.named_parameters())
+                    if set(cur) != set(before[name]):
+                        continue
+                    if cur and all(torch.equal(cur[k_], before[name][k_]) for k_ in cur):
+                        ctx.report("C02/learn_does_not_move", f"agent {j} (last mutation {ag.mut!r}): {k} learn step(s) left every parameter of trained network {name} unchanged",
+                                   network=name.split("[")[0], **w.loc)
+        ctx.state((cfg["algo"], cfg["obs"], op["op"], len(w.pop)))
+    ctx.nontrivial = n_mut > 0 and any(o["op"] == "use" for o in case["ops"])
+    for k in kinds_seen:
+        ctx.probe(f"mut_kind:{k}")
+
+
+RUNNERS.update({"C05": (gen_c05, run_c05), "C06": (gen_c06, run_c06), "C02": (gen_c02, run_c02)})
+
+
+# ==================================================================================================
+# C07  checkpoint round trip (crash-point sweep)     /     C08  Bellman target + target tracking
+# ==================================================================================================
+def _subject_ops(rng: random.Random, n: int) -> List[Dict[str, Any]]:
+    ops = []
+    for _ in range(n):
+        x = rng.random()
+        s = rng.getrandbits(31)
+        if x < 0.5:
+            ops.append({"op": "learn", "seed": s, "k": rng.choice([1, 1, 2])})
+        elif x < 0.85:
+            ops.append({"op": "mutate", "kind": rng.choice(MUT_KINDS[1:]), "seed": s})
+        elif x < 0.93:
+            ops.append({"op": "clone", "seed": s})
+        else:
+            ops.append({"op": "act", "seed": s})
+    return ops
+
+
+def apply_subject_op(w: World, ag, op: Dict[str, Any]):
+    """History events on one subject agent (returns the - possibly replaced - agent)."""
+    k = op["op"]
+    if k == "learn":
+        w.op_learn(ag, op["seed"], op.get("done", "mixed"), op.get("k", 1))
+    elif k == "act":
+        w.op_act(ag, op["seed"])
+    elif k == "mutate":
+        _, res = w.op_mutate([ag], {op["kind"]: 1.0}, op["seed"])
+        ag = res[0]
+    elif k == "clone":
+        seed_all(op["seed"])
+        ag = ag.clone()
+    elif k == "fitness":
+        ag.fitness.append(op["v"])
+        ag.scores.append(op["v"] * 2)
+        ag.steps[-1] += 7
+        ag.steps.append(ag.steps[-1])
+    return ag
+
+
+def build_subject(w: World, case: Dict[str, Any], upto: int):
+    cfg = w.cfg
+    hp = A.hp_config(cfg) if cfg["hp"] != "none" else None
+    ag = A.make_agent(cfg, index=case.get("index", 3), hp=hp, seed=kernel.derive(case["cfg_seed"], "subject"))
+    for op in case["ops"][:upto]:
+        ag = apply_subject_op(w, ag, op)
+    return ag
+
+
+class SimFile:
+    """File-like object with a durable prefix and write faults (simulated disk for torch.save / torch.load)."""
+
+    def __init__(self, fault: Optional[Dict[str, Any]] = None):
+        self.buf = io.BytesIO()
+        self.fault = fault or {}
+        self.nwrites = 0
+        self.nbytes = 0
+        self.fired = None
+
+    def write(self, b) -> int:
+        self.nwrites += 1
+        f = self.fault
+        b = bytes(b)
+        if f.get("kind") == "eio" and self.nwrites == f["at_write"]:
+            self.fired = "eio"
+            raise OSError(5, "Input/output error (injected)")
+        if f.get("kind") == "enospc" and self.nbytes + len(b) > f["after_bytes"]:
+            self.fired = "enospc"
+            room = max(0, f["after_bytes"] - self.nbytes)
+            self.buf.write(b[:room])
+            self.nbytes += room
+            raise OSError(28, "No space left on device (injected)")
+        self.nbytes += len(b)
+        return self.buf.write(b)
+
+    def flush(self):
+        pass
+
+    def tell(self):
+        return self.buf.tell()
+
+    def seek(self, *a):
+        return self.buf.seek(*a)
+
+    def durable(self) -> bytes:
+        data = self.buf.getvalue()
+        f = self.fault
+        if f.get("kind") == "torn":
+            cut = int(len(data) * f["frac"])
+            self.fired = "torn"
+            return data[:cut]
+        if f.get("kind") == "lost_tail_block":
+            blk = f.get("block", 512)
+            self.fired = "lost_tail_block"
+            return data[: max(0, len(data) - blk)] + bytes(min(blk, len(data)))
+        return data
+
+
+def restore(w: World, ag, data: bytes, path: str, case):
+    cfg = w.cfg
+    if path == "load":
+        return type(ag).load(io.BytesIO(data))
+    hp = A.hp_config(cfg) if cfg["hp"] != "none" else None
+    fresh = A.make_agent(cfg, index=77, hp=hp, seed=kernel.derive(case["cfg_seed"], "fresh"))
+    fresh.load_checkpoint(io.BytesIO(data))
+    return fresh
+
+
+def equivalent_agent_diffs(w: World, a, b) -> Tuple[List[str], List[str]]:
+    """Strict comparison (no target carve-out): used for restored-vs-twin."""
+    fa, fb = A.value_fp(a), A.value_fp(b)
+    vd = diff_fp(fa, fb)
+    pa, pb = A.probe_outputs(a, w.cfg, w.probes), A.probe_outputs(b, w.cfg, w.probes)
+    return vd, outputs_equal(pa, pb)
+
+
+def gen_c07(rng: random.Random, tier: str) -> Dict[str, Any]:
+    cfg = A.gen_agent_cfg(rng)
+    if cfg["hp"] == "shared":
+        cfg["hp"] = "private"
+    n = rng.randint(2, 7 if tier == "quick" else 12)
+    ops = _subject_ops(rng, n)
+    ops.insert(rng.randrange(len(ops) + 1), {"op": "fitness", "v": round(rng.uniform(-5, 5), 3)})
+    suffix = [{"op": rng.choice(["learn", "learn", "act"]), "seed": rng.getrandbits(31), "k": 1} for _ in range(rng.randint(1, 3))]
+    if tier == "quick":
+        cps = sorted(set([len(ops)] + [rng.randint(0, len(ops)) for _ in range(2)]))
+    else:
+        cps = list(range(len(ops) + 1))
+    fault = None
+    if rng.random() < 0.25:
+        kind = rng.choice(["torn", "eio", "enospc", "lost_tail_block"])
+        fault = {"kind": kind, "frac": rng.choice([0.0, 0.3, 0.9, 0.999]), "at_write": rng.randint(1, 12), "after_bytes": rng.choice([0, 100, 5000, 40000]),
+                 "block": rng.choice([64, 512, 4096])}
+    return {"engine": "world", "prop": "C07", "cfg": cfg, "cfg_seed": rng.getrandbits(31), "index": rng.randint(0, 9), "ops": ops, "suffix": suffix,
+            "crash_points": cps, "path": rng.choice(["load", "load_checkpoint"]), "fault": fault}
+
+
+def run_c07(ctx: kernel.Ctx, case: Dict[str, Any]) -> None:
+    w = World(ctx, case)
+    n_ops = len(case["ops"])
+    cps = [c for c in case["crash_points"] if c <= n_ops] or [n_ops]
+    fault = case.get("fault")
+    for c in cps:
+        ctx.op_index = c
+        ctx.steps += 1
+        orig = build_subject(w, case, c)
+        twin = build_subject(w, case, c)  # never crashes; rebuilt by replaying the same seeded history (no reliance on clone)
+        vd0, bd0 = equivalent_agent_diffs(w, orig, twin)
+        if vd0 or bd0:
+            raise kernel.HarnessError(f"history replay is not deterministic at crash point {c}: {vd0[:3]} {bd0[:3]}")
+        f = SimFile(fault)
+        try:
+            orig.save_checkpoint(f)
+            saved = True
+        except Exception as e:
+            if not f.fired:
+                raise
+            # an injected disk error may surface as OSError or as torch's own writer error: "may fail"
+            saved = False
+            ctx.fault(f"save_{f.fired}")
+            ctx.log("disk", "save_failed", {"type": type(e).__name__})
+        data = f.durable() if saved else f.buf.getvalue()
+        if f.fired and saved:
+            ctx.fault(f"disk_{f.fired}")
+        ctx.log("subject", "crash", {"at": c, "bytes": len(data), "fault": f.fired})
+        ctx.fault("crash_restart")
+        del orig
+        damaged = bool(f.fired)
+        try:
+            rest = restore(w, twin, data, case["path"], case)
+        except Exception as e:
+            if damaged:
+                ctx.probe("damaged_file_rejected")
+                continue  # may fail, never wrong data
+            raise
+        if damaged and (not saved or data != f.buf.getvalue()):
+            ctx.probe("damaged_file_loaded")
+        vd, bd = equivalent_agent_diffs(w, twin, rest)
+        pre = "C07/io" if damaged else "C07"
+        if vd:
+            comp = sorted({k.split(":")[0] + (":" + k.split(":")[1] if k.startswith(("net:", "book:", "hp:")) else "") for k in vd})
+            ctx.report(f"{pre}/restore_differs:{vd[0].split(':')[0]}", f"crash point {c}, path {case['path']}: restored agent differs from the one that was saved in "
+                                                                     f"{len(vd)} components {vd[:6]} (kinds {comp[:6]})", path=case["path"], **w.loc)
+        if bd:
+            ctx.report(f"{pre}/restore_differs:behaviour", f"crash point {c}, path {case['path']}: restored agent computes different outputs for {bd}",
+                       path=case["path"], nets=",".join(sorted({b.split('[')[0] for b in bd})), **w.loc)
+        # --- both continue with the same suffix ---
+        if not vd and not bd:
+            t, r_ = twin, rest
+            for op in case["suffix"]:
+                t = apply_subject_op(w, t, op)
+                r_ = apply_subject_op(w, r_, op)
+            vd2, bd2 = equivalent_agent_diffs(w, t, r_)
+            if vd2 or bd2:
+                ctx.report(f"{pre}/diverges_after_restore", f"crash point {c}: after the same {len(case['suffix'])} events original and restored agent differ in {vd2[:5]} {bd2[:3]}",
+                           path=case["path"], **w.loc)
+        ctx.state((w.cfg["algo"], w.cfg["obs"], case["path"], c, tuple(o["op"] + o.get("kind", "") for o in case["ops"][max(0, c - 2):c])))
+    ctx.nontrivial = any(o["op"] in ("learn", "mutate") for o in case["ops"][: max(cps)])
+
+
+# ---- C08 ---------------------------------------------------------------------------------
+def gen_c08(rng: random.Random, tier: str) -> Dict[str, Any]:
+    cfg = A.gen_agent_cfg(rng, algos=A.VALUE_BASED)
+    cfg["obs"] = rng.choice(["vector", "vector", "discrete", "tuple", "image"]) if cfg["algo"] not in A.MULTI else rng.choice(["vector", "discrete", "image"])
+    if cfg["obs"] == "image":
+        cfg["tight"] = True  # tight image config has no BatchNorm buffers (see net_config)
+        cfg["no_bn"] = True
+    if "share_encoders" in cfg:
+        cfg["share_encoders"] = False  # targets of tied encoders are not soft-updated by design; the model would not apply
+    if cfg["hp"] == "shared":
+        cfg["hp"] = "private"
+    ops = []
+    for _ in range(rng.randint(1, 4 if tier == "quick" else 8)):
+        pre = rng.choice(["none", "none", "clone", "mutate:arch", "mutate:param", "mutate:act", "mutate:rl_hp", "load", "load_checkpoint"])
+        ops.append({"op": "streak", "pre": pre, "k": rng.randint(1, 6 if tier == "quick" else 12), "done": rng.choice(["mixed", "mixed", "zeros", "ones"]),
+                    "seed": rng.getrandbits(31)})
+    return {"engine": "world", "prop": "C08", "cfg": cfg, "cfg_seed": rng.getrandbits(31), "ops": ops}
+
+
+def _target_pairs(agent) -> List[Tuple[str, str]]:
+    """(eval attr, target attr) pairs from the registry."""
+    out = []
+    for g in agent.registry.groups:
+        if g.shared is not None:
+            for sh in (g.shared if isinstance(g.shared, list) else [g.shared]):
+                out.append((g.eval, sh))
+    return out
+
+
+def _as_list(x):
+    return x if isinstance(x, list) else [x]
+
+
+class TargetModel:
+    """Executable reference for 'target = tau * online + (1 - tau) * previous target': one shadow module per target
+    network (a clone of the online architecture holding the model's weights), compared behaviourally."""
+
+    def __init__(self, w: World, agent):
+        self.w = w
+        self.shadows: Dict[str, Any] = {}
+        self.valid = True
+        self.resync(agent)
+
+    def resync(self, agent) -> None:
+        self.shadows = {}
+        outs = A.probe_outputs(agent, self.w.cfg, self.w.probes)
+        for ev, tg in _target_pairs(agent):
+            for i, (e, t) in enumerate(zip(_as_list(getattr(agent, ev)), _as_list(getattr(agent, tg)))):
+                key = f"{tg}[{i}]" if isinstance(getattr(agent, tg), list) else tg
+                ekey = f"{ev}[{i}]" if isinstance(getattr(agent, ev), list) else ev
+                sh = None
+                for cand in (t, e):  # the target's own weights if they are exposed, else the online weights if it is in sync
+                    c = cand.clone()
+                    if self._same(agent, key, c, outs):
+                        sh = c
+                        break
+                if sh is None:
+                    self.valid = False
+                    self.w.ctx.probe("target_model_unavailable")
+                    return
+                self.shadows[key] = sh
+        self.valid = True
+
+    def _call(self, agent, key: str, module):
+        """Output of `module` standing in for network `key` of the agent on the probes."""
+        base = key.split("[")[0]
+        obj = getattr(agent, base)
+        if isinstance(obj, list):
+            i = int(key.split("[")[1][:-1])
+            old = obj[i]
+            obj[i] = module
+            try:
+                return A.probe_outputs(agent, self.w.cfg, self.w.probes)[key]
+            finally:
+                obj[i] = old
+        old = obj
+        object.__setattr__(agent, base, module)
+        try:
+            return A.probe_outputs(agent, self.w.cfg, self.w.probes)[key]
+        finally:
+            object.__setattr__(agent, base, old)
+
+    def _same(self, agent, key, module, outs, tol=1e-5) -> bool:
+        o = self._call(agent, key, module)
+        return o.shape == outs[key].shape and bool(torch.allclose(o, outs[key], atol=tol, rtol=1e-4))
+
+    def step(self, agent, tau: float) -> Dict[str, str]:
+        """After one learn step: classify every target as 'updated' (tau rule), 'unchanged' or 'wrong'."""
+        res = {}
+        outs = A.probe_outputs(agent, self.w.cfg, self.w.probes)
+        for ev, tg in _target_pairs(agent):
+            for i, e in enumerate(_as_list(getattr(agent, ev))):
+                key = f"{tg}[{i}]" if isinstance(getattr(agent, tg), list) else tg
+                sh = self.shadows[key]
+                prev = {k: v.detach().clone() for k, v in sh.named_parameters()}
+                online = dict(e.named_parameters())
+                if set(prev) != set(online) or any(prev[k].shape != online[k].shape for k in prev):
+                    res[key] = "arch_changed"
+                    continue
+                with torch.no_grad():
+                    for k, p in sh.named_parameters():
+                        p.copy_(tau * online[k].detach() + (1.0 - tau) * prev[k])
+                is_upd = self._same(agent, key, sh, outs)
+                moved = any(not torch.equal(p.detach(), prev[k]) for k, p in sh.named_parameters())
+                if is_upd and not moved:
+                    res[key] = "both"  # online == previous target: the rule and 'unchanged' coincide
+                    continue
+                if is_upd:
+                    # is 'unchanged' equally consistent with what we observe?
+                    upd_w = {k: p.detach().clone() for k, p in sh.named_parameters()}
+                    with torch.no_grad():
+                        for k, p in sh.named_parameters():
+                            p.copy_(prev[k])
+                    also_unchanged = self._same(agent, key, sh, outs)
+                    with torch.no_grad():
+                        for k, p in sh.named_parameters():
+                            p.copy_(upd_w[k])
+                    res[key] = "both" if also_unchanged else "updated"
+                    continue
+                with torch.no_grad():
+                    for k, p in sh.named_parameters():
+                        p.copy_(prev[k])
+                res[key] = "unchanged" if self._same(agent, key, sh, outs) else "wrong"
+        return res
+
+
+def _expected_loss(agent, cfg, batch, seed) -> Optional[float]:
+    """Loss the algorithm defines, recomputed from the networks *before* the step (DQN / double DQN / DDPG critic / TD3 critic)."""
+    algo = cfg["algo"]
+    with torch.no_grad():
+        if algo == "DQN":
+            obs = agent.preprocess_observation(batch["obs"])
+            nobs = agent.preprocess_observation(batch["next_obs"])
+            a = batch["action"].long()
+            a = a.unsqueeze(-1) if a.ndim == 1 else a
+            r, d = batch["reward"], batch["done"]
+            if agent.double:
+                idx = agent.actor(nobs).argmax(dim=1, keepdim=True)
+                qn = agent.actor_target(nobs).gather(1, idx)
+            else:
+                qn = agent.actor_target(nobs).max(dim=1, keepdim=True)[0]
+            y = r + agent.gamma * (1 - d) * qn
+            q = agent.actor(obs).gather(1, a)
+            return float(torch.nn.functional.mse_loss(q, y))
+        if algo in ("DDPG", "TD3"):
+            obs = agent.preprocess_observation(batch["obs"])
+            nobs = agent.preprocess_observation(batch["next_obs"])
+            a, r, d = batch["action"], batch["reward"], batch["done"]
+            na = agent.actor_target(nobs)
+            na = agent.multi_dim_clamp(agent.min_action, agent.max_action, na)
+            if algo == "DDPG":
+                y = r + (1 - d) * agent.gamma * agent.critic_target(nobs, na)
+                return float(torch.nn.functional.mse_loss(agent.critic(obs, a), y))
+            qn = torch.min(agent.critic_target_1(nobs, na), agent.critic_target_2(nobs, na))
+            y = r + (1 - d) * agent.gamma * qn
+            return float(torch.nn.functional.mse_loss(agent.critic_1(obs, a), y) + torch.nn.functional.mse_loss(agent.critic_2(obs, a), y))
+    return None
+
+
+def run_c08(ctx: kernel.Ctx, case: Dict[str, Any]) -> None:
+    w = World(ctx, case)
+    cfg = w.cfg
+    algo = cfg["algo"]
+    delayed = algo in ("DDPG", "TD3", "MATD3")
+
+    def fresh():
+        hp = A.hp_config(cfg) if cfg["hp"] != "none" else None
+        return A.make_agent(cfg, index=0, hp=hp, seed=kernel.derive(case["cfg_seed"], "subject"))
+
+    ag = fresh()
+    twin = fresh()  # done-masking twin: identical history, but next observations of done rows are replaced by noise
+    model = TargetModel(w, ag)
+    n_learn = 0
+    for oi, op in enumerate(case["ops"]):
+        ctx.op_index = oi
+        ctx.steps += 1
+        pre = op["pre"]
+        if pre != "none":
+            def do_pre(a):
+                if pre == "clone":
+                    seed_all(op["seed"])
+                    return a.clone()
+                if pre.startswith("mutate:"):
+                    return w.op_mutate([a], {pre.split(":")[1]: 1.0}, op["seed"])[1][0]
+                data = w.save_bytes(a)
+                return restore(w, a, data, pre, case)
+            ag = do_pre(ag)
+            twin = do_pre(twin)
+            model.resync(ag)
+            ctx.probe(f"streak_after_{pre.split(':')[0]}")
+            ctx.log("subject", "pre", {"kind": pre})
+        upd = {}
+        for j in range(op["k"]):
+            s = kernel.derive(op["seed"], "learn", j)
+            bs = int(ag.batch_size)
+            batch = A.make_batch(ag, cfg, s, op["done"], batch_size=bs)
+            batch_t = A.make_batch(twin, cfg, s, op["done"], batch_size=bs, noise_next_where_done=True)
+            nb = nb_t = None
+            if cfg.get("use_n_step"):
+                nb = A.make_batch(ag, cfg, kernel.derive(s, "n"), op["done"], batch_size=bs)
+                nb_t = A.make_batch(twin, cfg, kernel.derive(s, "n"), op["done"], batch_size=bs, noise_next_where_done=True)
+            want_loss = None
+            if algo in ("DQN", "DDPG", "TD3"):
+                want_loss = _expected_loss(ag, cfg, batch, s)
+            seed_all(s)
+            if algo in ("DDPG", "TD3"):
+                out = ag.learn(batch, policy_noise=0.0)
+            else:
+                out = A.do_learn(ag, cfg, batch, nb)
+            seed_all(s)
+            if algo in ("DDPG", "TD3"):
+                twin.learn(batch_t, policy_noise=0.0)
+            else:
+                A.do_learn(twin, cfg, batch_t, nb_t)
+            n_learn += 1
+            ctx.log("subject", "learn", {"j": j})
+            # (2) loss value
+            if want_loss is not None:
+                got = out if algo == "DQN" else out[1]
+                if got is not None and abs(float(got) - want_loss) > 1e-4 * max(1.0, abs(want_loss)):
+                    ctx.report("C08/loss_value", f"op {oi} step {j}: learn() returned loss {float(got)!r}; the algorithm's loss with target r + gamma (1-done) Q_target(s') "
+                                                 f"evaluated on the same networks and batch is {want_loss!r}", **w.loc)
+            # (1) target tracking
+            if model.valid:
+                cls = model.step(ag, float(ag.tau))
+                for key, c in cls.items():
+                    upd.setdefault(key, []).append(c)
+                    if c == "wrong":
+                        ctx.report("C08/target_not_tracking", f"op {oi} step {j} (streak after {pre}): target {key} is neither tau*online+(1-tau)*previous (tau={ag.tau}) nor its previous value",
+                                   target=key.split("[")[0], **w.loc)
+                        model.resync(ag)
+                        break
+                    if c == "unchanged" and not delayed and float(ag.tau) > 0:
+                        ctx.report("C08/target_frozen", f"op {oi} step {j} (streak after {pre}): target {key} did not move after a learn step (tau={ag.tau})",
+                                   target=key.split("[")[0], **w.loc)
+            # (3) done masking: twin saw noise where done == 1, online weights must agree
+            fa, ft = A.value_fp(ag), A.value_fp(twin)
+            dd = [k for k in diff_fp(fa, ft) if k.startswith("net:")]
+            if dd:
+                worst = 0.0
+                for (n1, m1), (n2, m2) in zip(A.flat_nets(ag), A.flat_nets(twin)):
+                    for (k1, p1), (k2, p2) in zip(m1.state_dict().items(), m2.state_dict().items()):
+                        if p1.shape == p2.shape and p1.dtype.is_floating_point:
+                            worst = max(worst, float((p1 - p2).abs().max()))
+                if worst > (1e-4 if algo == "RainbowDQN" else 1e-5):
+                    ctx.report("C08/done_not_masked", f"op {oi} step {j}: replacing next observations of done rows changed the update (max weight difference {worst:.3e}, "
+                                                      f"{len(dd)} tensors, first {dd[:3]}); done pattern {op['done']}", **w.loc)
+                    twin = None
+            if twin is None:
+                break
+        if twin is None:
+            break
+        if delayed and model.valid:
+            pf = int(ag.policy_freq)
+            for key, cl in upd.items():
+                nupd = sum(1 for c in cl if c == "updated")
+                namb = sum(1 for c in cl if c == "both")
+                if "wrong" in cl or "arch_changed" in cl:
+                    continue
+                lo, hi = len(cl) // pf, -(-len(cl) // pf)
+                if not (nupd <= hi and nupd + namb >= lo):
+                    ctx.report("C08/target_update_cadence", f"op {oi}: over {len(cl)} learn steps with policy_freq={pf} target {key} was updated {nupd} times ({cl})",
+                               target=key.split("[")[0], **w.loc)
+        ctx.state((algo, cfg["obs"], pre, op["done"], min(op["k"], 3), cfg.get("tau")))
+    ctx.nontrivial = n_learn >= 2
+
+
+RUNNERS.update({"C07": (gen_c07, run_c07), "C08": (gen_c08, run_c08)})
